@@ -199,5 +199,157 @@ C10_SAVE = dict(
     implicit_return="{f}",
 )
 
+# ---- scoring/main.py (C06 vocabulary: Model/Scores.v) ----
+# Trusted per entry: one attribute / library call each.  A Plate object is Scores.plate (its id and the (position, row)
+# pairs it selects), the Screen is the list of its rows, the ScoresHolder is Scores.holder, the policy an optional
+# function (batch plates, candidates) -> plates.
+_SCORING_PRIMS = [
+    ("np.random.default_rng()", "fresh_rng", "rng_t"),
+    ("screen.plates", "plates screen'", "list plate"),                 # [get_plate(x) for x in np.unique(plate_ids)]
+    ("__p.plate_id", "p_id {p}", "Z", {"p": "plate"}),
+    ("__p.is_observed", "is_observed {p}", "bool", {"p": "plate"}),   # np.all(observation_mask)
+    ("sorted(__l, key=lambda p: p.plate_id)", "sorted_by_id {l}", "list plate", {"l": "list plate"}),   # stable
+]
+
+C06_SELECT = dict(
+    file="src/batchie/scoring/main.py", func="select_next_plate",
+    out="SrcScoring.v", imports="Model.Scores", name="src_select_next_plate",
+    pyparams=["scores", "screen", "policy", "batch_plate_ids", "rng"],
+    params=[("scores", "holder"), ("screen", "screen"), ("policy", "opt policy_t"), ("batch_plate_ids", "opt list Z"),
+            ("rng", "opt rng_t")],
+    returns="opt plate",
+    vars={
+        "rng": "rng_t", "batch_plate_ids": "list Z",       # narrowed by the `if x is None: x = default` idiom
+        "plate": "plate", "batch_plates": "list plate", "unobserved_plates_not_already_selected": "list plate",
+        "eligible_plates": "list plate", "eligible_plate_ids": "list Z", "best_plate_id": "Z", "best_plate": "plate",
+        "best_plate_name": "nat",
+    },
+    prims=_SCORING_PRIMS + [
+        # the policy object is its filter function; rng is handed on unread
+        ("__f.filter_eligible_plates(batch_plates=__b, unobserved_plates=__u, rng=__r)", "{f} {b} {u}", "list plate",
+         {"f": "policy_t", "b": "list plate", "u": "list plate", "r": "rng_t"}),
+        ("scores.plate_id_with_minimum_score(__e)", "!min_plate scores' (Some {e})", "Z", {"e": "list Z"}),
+        ("screen.get_plate(__i)", "get_plate screen' {i}", "plate", {"i": "Z"}),     # Plate(screen, plate_ids == i)
+        ("__p.plate_name", "!plate_name {p}", "nat", {"p": "plate"}),
+    ],
+    ignore=["logger.warning(__a)", "logger.info(__a)"],
+)
+
+C06_SCORE_CHUNK = dict(
+    file="src/batchie/scoring/main.py", func="score_chunk",
+    out="SrcScoring.v", imports="Model.Scores", name="src_score_chunk",
+    pyparams=["scorer", "thetas", "screen", "distance_matrix", "rng", "progress_bar", "n_chunks", "chunk_index", "batch_plate_ids"],
+    # thetas, distance_matrix, progress_bar are only handed on to scorer.score, whose answer is an arbitrary function of the plates dict
+    params=[("scorer", "scorer_fn"), ("screen", "screen"), ("rng", "opt rng_t"), ("n_chunks", "Z"), ("chunk_index", "Z"),
+            ("batch_plate_ids", "opt list Z")],
+    returns="holder",
+    vars={
+        "rng": "rng_t", "plate": "plate", "p": "plate",
+        "unobserved_plates": "list plate", "chunk_plates": "list plate", "previously_selected_plates": "list plate",
+        "previously_selected_plates_combined": "subset", "conditioned_plate": "subset", "plates_to_score": "dict subset",
+        "scores_holder": "holder", "scores": "dict", "k": "Z", "v": "Z",
+    },
+    coerce=[("plate", "subset", "p_rows {x}")],        # a Plate is a ScreenSubset: its selection
+    prims=_SCORING_PRIMS + [
+        ("np.array_split(__l, __n)[__i].tolist()", "!array_split_at {l} {n} {i}", "list plate", {"l": "list plate", "n": "Z", "i": "Z"}),
+        ("ScreenSubset.concat(__l)", "!subset_concat screen' {l}", "subset", {"l": "list subset"}),
+        ("__p.combine(__q)", "subset_union screen' {p} {q}", "subset", {"p": "subset", "q": "subset"}),
+        ("filter_dataset_to_unique_treatments(__x)", "uniq_first [] {x}", "subset", {"x": "subset"}),
+        ("len(__d)", "Z.of_nat (length {d})", "Z"),
+        ("ChunkedScoresHolder(__n)", "holder_new (Z.to_nat {n})", "holder", {"n": "Z"}),
+        ("scorer.score(plates=__p, distance_matrix=distance_matrix, samples=thetas, rng=__r, progress_bar=progress_bar)",
+         "scorer' {p}", "dict", {"p": "dict subset", "r": "rng_t"}),
+    ],
+    effects=[("scores_holder.add_score(__k, __v)", "scores_holder'", "!add_score {state} {k} {v}")],
+    ignore=["logger.info(__a)"],
+)
+
+# ---- scoring/main.py select_next_plate once more, in the C16 vocabulary (Model/Policy.v): a Plate object is (id, sample ids),
+# `observed` its is_observed attribute, the ScoresHolder the list of its (plate id, score key) slots, the policy object
+# KPerSamplePlatePolicy(k) is k and its method the C16 model function (itself linked to the source by C16_model_is_source)
+C16_SELECT = dict(
+    file="src/batchie/scoring/main.py", func="select_next_plate",
+    out="SrcScoringPolicy.v", imports="Model.Policy", name="src_select_next_plate_k",
+    pyparams=["scores", "screen", "policy", "batch_plate_ids", "rng"],
+    params=[("observed", "plate -> bool"), ("scores", "list (Z * Z)"), ("screen", "list plate"), ("policy", "opt Z"),
+            ("batch_plate_ids", "opt list Z"), ("rng", "opt rng_t")],
+    returns="opt plate",
+    vars={
+        "rng": "rng_t", "batch_plate_ids": "list Z",       # narrowed by the `if x is None: x = default` idiom
+        "plate": "plate", "batch_plates": "list plate", "unobserved_plates_not_already_selected": "list plate",
+        "eligible_plates": "list plate", "eligible_plate_ids": "list Z", "best_plate_id": "Z", "best_plate": "plate",
+        "best_plate_name": "Z",
+    },
+    prims=[
+        ("np.random.default_rng()", "fresh_rng", "rng_t"),
+        ("screen.plates", "screen'", "list plate"),
+        ("__p.plate_id", "plate_id {p}", "Z", {"p": "plate"}),
+        ("__p.is_observed", "observed {p}", "bool", {"p": "plate"}),
+        ("sorted(__l, key=lambda p: p.plate_id)", "sort_by_id {l}", "list plate", {"l": "list plate"}),   # stable
+        ("__f.filter_eligible_plates(batch_plates=__b, unobserved_plates=__u, rng=__r)", "!filter_eligible {f} {b} {u}", "list plate",
+         {"f": "Z", "b": "list plate", "u": "list plate", "r": "rng_t"}),
+        ("scores.plate_id_with_minimum_score(__e)", "!min_score_id scores' {e}", "Z", {"e": "list Z"}),
+        ("screen.get_plate(__i)", "get_plate screen' {i}", "plate", {"i": "Z"}),
+        ("__p.plate_name", "!plate_name {p}", "Z", {"p": "plate"}),
+    ],
+    ignore=["logger.warning(__a)", "logger.info(__a)"],
+)
+
+# ---- ChunkedScoresHolder: the two numpy arrays are lists, `self` is (scores, plate_ids, current_index) ----
+_HOLDER_ATTRS = {"self.scores": "scores", "self.plate_ids": "plate_ids", "self.current_index": "current_index"}
+_HOLDER_STATE = [("scores", "list Z"), ("plate_ids", "list Z"), ("current_index", "Z")]
+
+C06_ADD_SCORE = dict(
+    file="src/batchie/scoring/main.py", cls="ChunkedScoresHolder", func="add_score",
+    out="SrcScoring.v", imports="Model.Scores", name="src_add_score",
+    pyparams=["self", "plate_id", "score"], attr_vars=_HOLDER_ATTRS,
+    params=_HOLDER_STATE + [("plate_id", "Z"), ("score", "Z")],
+    returns="(list Z * list Z * Z)", vars={}, prims=[],
+    index_error=4,                                             # a[i] = v past the end
+    implicit_return="({scores}, {plate_ids}, {current_index})",   # the state of self when the method ends
+)
+
+C06_COMBINE = dict(
+    file="src/batchie/scoring/main.py", cls="ChunkedScoresHolder", func="combine",
+    out="SrcScoring.v", imports="Model.Scores", name="src_combine",
+    pyparams=["self", "other"],
+    attr_vars=dict(_HOLDER_ATTRS, **{"other.scores": "other_scores", "other.plate_ids": "other_plate_ids"}),
+    params=_HOLDER_STATE + [("other_scores", "list Z"), ("other_plate_ids", "list Z")],
+    returns="(list Z * list Z * Z)", vars={"scores": "list Z", "plate_ids": "list Z"},
+    prims=[
+        ("np.concatenate((__a, __b))", "{a} ++ {b}", "list Z", {"a": "list Z", "b": "list Z"}),
+        ("len(__a)", "Z.of_nat (length {a})", "Z"),
+        ("self", "(scores', plate_ids', current_index')", "(list Z * list Z * Z)"),     # `return self`: its state at that point
+    ],
+)
+
+C06_MIN_SCORE = dict(
+    file="src/batchie/scoring/main.py", cls="ChunkedScoresHolder", func="plate_id_with_minimum_score",
+    out="SrcScoring.v", imports="Model.Scores", name="src_plate_id_with_minimum_score",
+    pyparams=["self", "eligible_plate_ids"], attr_vars=_HOLDER_ATTRS,
+    params=[("scores", "list Z"), ("plate_ids", "list Z"), ("eligible_plate_ids", "opt list Z")],
+    returns="Z", vars={"mask": "list bool"},
+    prims=[
+        ("__a[__i].item()", "!array_item {a} {i}", "Z", {"a": "list Z", "i": "Z"}),
+        ("__a.argmin()", "!argmin_index {a}", "Z", {"a": "list Z"}),       # numpy: first minimum, ValueError on empty
+        ("np.isin(__a, __l)", "isin {a} {l}", "list bool", {"a": "list Z", "l": "list Z"}),
+        ("__a[__m]", "!mask_select {a} {m}", "list Z", {"a": "list Z", "m": "list bool"}),
+    ],
+)
+
+C06_CONCAT = dict(
+    file="src/batchie/scoring/main.py", cls="ChunkedScoresHolder", func="concat",
+    out="SrcScoring.v", imports="Model.Scores", name="src_concat",
+    pyparams=["cls", "scores_list"], params=[("scores_list", "list holder")],
+    returns="holder", vars={"current": "holder", "scores": "holder"},
+    prims=[
+        ("__l[0]", "!list_head {l}", "holder", {"l": "list holder"}),
+        ("__l[1:]", "tl {l}", "list holder", {"l": "list holder"}),
+        ("__a.combine(__b)", "h_combine {a} {b}", "holder", {"a": "holder", "b": "holder"}),   # linked by C06_COMBINE
+    ],
+    raises=[("Must provide at least one ChunkedScoresHolder", 5)],
+)
+
 ALL = [C16_FILTER, C17_SAMPLE,
-       C10_INIT, C10_N_THETAS, C10_GET, C10_ADD, C10_IS_COMPLETE, C10_COMBINE, C10_CONCAT, C10_LOAD, C10_SAVE]
+       C10_INIT, C10_N_THETAS, C10_GET, C10_ADD, C10_IS_COMPLETE, C10_COMBINE, C10_CONCAT, C10_LOAD, C10_SAVE,
+       C06_SELECT, C06_SCORE_CHUNK, C16_SELECT, C06_ADD_SCORE, C06_COMBINE, C06_MIN_SCORE, C06_CONCAT]
